@@ -3,11 +3,13 @@
 and record which obligations/groups catch it in seeded/<id>/check.json; prints a table."""
 import sys, os, json, subprocess, re, glob, tempfile, shutil
 want = sys.argv[1:]
+ONLY = set(a for a in want if '-' in a)
+want = [a for a in want if '-' not in a]
 rows = []
 for d in sorted(glob.glob("/verif/seeded/*/")):
     name = os.path.basename(d.rstrip("/"))
     pid = name.split("-")[0]
-    if want and pid not in want:
+    if (want or ONLY) and pid not in want and name not in ONLY:
         continue
     meta = json.load(open(d + "meta.json")) if os.path.exists(d + "meta.json") else {}
     props = meta.get("check_properties", [pid])
@@ -23,11 +25,13 @@ for d in sorted(glob.glob("/verif/seeded/*/")):
         if a.returncode != 0:
             rows.append("%-8s patch does not apply to the current HEAD: %s" % (name, a.stdout.decode()[-120:].replace(chr(10), " ")))
             continue
-        for p in props:
-            pr = subprocess.run(["/verif/check", p, "--jobs", os.environ.get("VERIF_JOBS", "8")], cwd="/verif", env=dict(os.environ, VERIF_REPO=wt),
+        runs = meta.get("check_runs") or [[p, ""] for p in props]
+        for p, grp in runs:
+            cmdl = ["/verif/check", p, "--jobs", os.environ.get("VERIF_JOBS", "8")] + (["--group", grp] if grp else [])
+            pr = subprocess.run(cmdl, cwd="/verif", env=dict(os.environ, VERIF_REPO=wt),
                                 stdout=subprocess.PIPE, stderr=subprocess.STDOUT)
             out = pr.stdout.decode(errors="replace")
-            res["properties"][p] = {"exit": pr.returncode,
+            res["properties"][p + ("/" + grp if grp else "")] = {"exit": pr.returncode, "restricted_to_group": grp,
                 "failed_obligations": sorted(set(re.findall(r"failed obligation (\S+ \[[^\]]+\])", out)))[:15],
                 "groups_failed": sorted(set(re.findall(r"FAILED\s+(\S+)", out))),
                 "groups_undecided": sorted(set(re.findall(r"UNDECIDED (\S+/\S+)", out))),
